@@ -1,8 +1,10 @@
 (* MODEL of reamber's OJN reader (O2JMapSet.read -> O2JMapSetMeta.read_meta,
    O2JEventPackage.read_event_packages / read_events_note / read_events_bpm, O2JMap.read_pkgs),
-   transcribed branch by branch from the code of the pinned tree, INCLUDING the defective tempo sweep
-   of read_pkgs ([read_pkgs_now]).  [read_pkgs_fixed] is a second model: the repaired sweep proposed
-   in docs/C07.md.  Definitions only.  Any Python exception = None.
+   transcribed branch by branch.  THE model is [read_fixed] / [read_pkgs_fixed]: read_pkgs as it is since
+   the repairs 9171148 (tempo sweep: advance_bpm + tail loop) and d4c1412 (long-note length is a Python
+   float).  [read_old] / [read_pkgs_old] keep the algorithm of the tree before those commits (guard
+   `if not next_bpm_measure`, truncating setter) ONLY for the _refuted witnesses and regression diagnosis.
+   Definitions only.  Any Python exception = None.
    Bytes are Z in 0..255; times/measures/bpm are exact rationals (a float32 widens exactly). *)
 From Coq Require Import ZArith QArith Qround List Bool.
 From RV Require Import Base.PyNum Base.Bytes Generated.Tables.
@@ -329,9 +331,9 @@ Record sweep := mkSweep {
 
 Definition qdiv_opt (a b : Q) : option Q := if Qeq_bool b 0 then None else Some (a / b).
 
-(* ---- the loop as it is on the pinned tree ----
+(* ---- OLD: the loop before 9171148 (kept for the refutation witnesses) ----
    while note_measure > next_bpm_measure:   (TypeError when next_bpm_measure is None) *)
-Fixpoint while_now (rest : list (Q * Q)) (nm : Q) (s : sweep) : option sweep :=
+Fixpoint while_old (rest : list (Q * Q)) (nm : Q) (s : sweep) : option sweep :=
   match sw_next s with
   | None => None
   | Some nx =>
@@ -346,7 +348,7 @@ Fixpoint while_now (rest : list (Q * Q)) (nm : Q) (s : sweep) : option sweep :=
                 let s' := mkSweep off bm bv rest' (sw_done s ++ [off]) (Some bm) in
                 match rest' with
                 | [] => Some (mkSweep off bm bv [] (sw_done s ++ [off]) None)   (* break *)
-                | _ :: _ => while_now rest' nm s'
+                | _ :: _ => while_old rest' nm s'
                 end
             end
         end
@@ -355,21 +357,21 @@ Fixpoint while_now (rest : list (Q * Q)) (nm : Q) (s : sweep) : option sweep :=
 
 Definition not_truthy (o : option Q) : bool := match o with None => true | Some v => Qeq_bool v 0 end.
 
-Fixpoint sweep_now (nms : list Q) (s : sweep) (dict : list (Q * Q)) : option (sweep * list (Q * Q)) :=
+Fixpoint sweep_old (nms : list Q) (s : sweep) (dict : list (Q * Q)) : option (sweep * list (Q * Q)) :=
   match nms with
   | [] => Some (s, dict)
   | nm :: r =>
-      match (if not_truthy (sw_next s) then while_now (sw_rest s) nm s else Some s) with
+      match (if not_truthy (sw_next s) then while_old (sw_rest s) nm s else Some s) with
       | None => None
       | Some s1 =>
           match qdiv_opt (4 * (nm - sw_measure s1)) (sw_bpm s1) with
           | None => None
-          | Some x => sweep_now r s1 (dict ++ [(nm, Qred (sw_offset s1 + min_to_msec x))])
+          | Some x => sweep_old r s1 (dict ++ [(nm, Qred (sw_offset s1 + min_to_msec x))])
           end
       end
   end.
 
-(* ---- the repaired loop (docs/C07.md) ----
+(* ---- the loop since 9171148 ----
    while bpm_ix < len(bpms) and bpms[bpm_ix].measure <= note_measure: advance_bpm() *)
 Definition advance (s : sweep) (bm bv : Q) (rest' : list (Q * Q)) : option sweep :=
   match qdiv_opt ((bm - sw_measure s) * 4) (sw_bpm s) with
@@ -420,7 +422,7 @@ Fixpoint tail_fixed (rest : list (Q * Q)) (s : sweep) : option sweep :=
    integral float offset keeps it int64, note.offset then comes back as numpy.int64, the difference is a
    numpy.float64, and the setter does  val.astype(int64): the length is TRUNCATED toward zero.  With a
    non-integral head offset the Series has become float64 and nothing is lost.  [trunc = true] models
-   this; [trunc = false] is the repaired behaviour (docs/C07.md). *)
+   the code before d4c1412 (OLD); [trunc = false] is the code as it is (length = float(...)). *)
 Definition is_integral (q : Q) : bool := Qeq_bool q (inject_Z (Qfloor q)).
 Definition hold_length (trunc : bool) (o t : Q) : Q :=
   if trunc && is_integral o then inject_Z (qtrunc (t - o)) else Qred (t - o).
@@ -477,7 +479,7 @@ Definition read_pkgs_with (fixed trunc : bool) (pkgs : list (list ev)) (init_bpm
         | Some (s1, dict) =>
             match tail_fixed (sw_rest s1) s1 with None => None | Some s2 => Some (s2, dict) end
         end
-      else sweep_now nms s0 [] in
+      else sweep_old nms s0 [] in
     match swept with
     | None => None
     | Some (s, dict) =>
@@ -487,8 +489,8 @@ Definition read_pkgs_with (fixed trunc : bool) (pkgs : list (list ev)) (init_bpm
         end
     end.
 
-Definition read_pkgs_now := read_pkgs_with false true.      (* the pinned tree *)
-Definition read_pkgs_fixed := read_pkgs_with true false.    (* repaired sweep and repaired length *)
+Definition read_pkgs_fixed := read_pkgs_with true false.    (* THE model: the code as it is *)
+Definition read_pkgs_old := read_pkgs_with false true.      (* OLD: before 9171148 / d4c1412 *)
 
 (* ------------------------------------------------------------------ O2JMapSet.read *)
 Definition read_with (fixed trunc : bool) (b : list Z) : option oset :=
@@ -505,5 +507,5 @@ Definition read_with (fixed trunc : bool) (b : list Z) : option oset :=
       end
   end.
 
-Definition read_now := read_with false true.
-Definition read_fixed := read_with true false.
+Definition read_fixed := read_with true false.   (* THE model *)
+Definition read_old := read_with false true.     (* OLD variant, witnesses only *)
